@@ -15,7 +15,7 @@ from fractions import Fraction
 
 VERIF = os.environ.get('VERIF_ROOT') or os.path.dirname(os.path.dirname(os.path.abspath(__file__)))   # /verif, or a snapshot of it (vp run)
 COQ = os.path.join(VERIF, 'coq')
-REPO = '/repo'
+REPO = os.environ.get('VERIF_REPO') or '/repo'
 NS = 'SX'
 NCPU = 16
 
